@@ -45,7 +45,10 @@ pub fn search(rng: &mut Rng, budget: u64, fails: &mut Vec<Failure>) {
     // year-month arithmetic: whole years and months from the first of the month; week and day units are refused
     for _ in 0..(budget / 100).max(40) {
         let (y, m) = (rng.range(-200_000, 200_000) as i32, rng.range(1, 12) as u8);
-        let Ok(ym) = PlainYearMonth::new_with_overflow(y, m, None, Calendar::default(), ArithmeticOverflow::Reject) else { continue };
+        // the hidden reference day (only the low-level constructor can choose one) must not influence the arithmetic
+        let refday = match rng.next() % 3 { 0 => None, 1 => Some(rng.range(28, 31) as u8), _ => Some(rng.range(1, 28) as u8) };
+        let Ok(ym) = PlainYearMonth::new_with_overflow(y, m, refday, Calendar::default(), ArithmeticOverflow::Constrain) else { continue };
+        let ov = if rng.next() % 2 == 0 { ArithmeticOverflow::Constrain } else { ArithmeticOverflow::Reject };
         let (dy, dm) = (rng.range(-50, 50), rng.range(-40, 40));
         let same_sign = (dy >= 0 && dm >= 0) || (dy <= 0 && dm <= 0);
         if !same_sign { continue; }
@@ -56,8 +59,8 @@ pub fn search(rng: &mut Rng, budget: u64, fails: &mut Vec<Failure>) {
         for sub in [false, true] {
             let t = if sub { total - (dy * 12 + dm) } else { total + (dy * 12 + dm) };
             let (wy, wm) = (t.div_euclid(12), t.rem_euclid(12) + 1);
-            let input = format!("PlainYearMonth({y}-{m}).{}(P{dy}Y{dm}M)", if sub { "subtract" } else { "add" });
-            match catch_unwind(|| if sub { ym.subtract(&d, ArithmeticOverflow::Constrain) } else { ym.add(&d, ArithmeticOverflow::Constrain) }) {
+            let input = format!("PlainYearMonth({y}-{m}, reference day {refday:?}).{}(P{dy}Y{dm}M, {ov:?})", if sub { "subtract" } else { "add" });
+            match catch_unwind(|| if sub { ym.subtract(&d, ov) } else { ym.add(&d, ov) }) {
                 Ok(Ok(r)) => if (r.iso_year() as i128, r.iso_month() as i128) != (wy, wm) { fails.push(Failure { what: "PlainYearMonth add/subtract".into(), input, expected: format!("{wy}-{wm}"), observed: format!("{}-{}", r.iso_year(), r.iso_month()) }) },
                 Ok(Err(_)) => fails.push(Failure { what: "PlainYearMonth add/subtract refused whole years and months inside the limits".into(), input, expected: format!("{wy}-{wm}"), observed: "Err".into() }),
                 Err(_) => fails.push(Failure { what: "PlainYearMonth add/subtract panicked".into(), input, expected: "value or error".into(), observed: "panic".into() }),
